@@ -110,7 +110,8 @@ Record Wf (t : st) : Prop := {
   w_nd_s : NoDup (sids t);
   w_cids : forall c, In c (cids t) <-> c_phase (cl t c) <> PNone;
   w_sids : forall s, In s (sids t) <-> s_seen (sv t s) = true;
-  w_live : forall s, s_live (sv t s) = true -> s_seen (sv t s) = true }.
+  w_live : forall s, s_live (sv t s) = true -> s_seen (sv t s) = true;
+  w_zero : c_phase (cl t cancel_stats_id) = PNone }.
 
 Lemma Wf_init : Wf init.
 Proof.
@@ -119,10 +120,11 @@ Qed.
 
 Lemma Wf_step cf t o : Wf t -> Wf (step cf t o).
 Proof.
-  intros W. destruct W as [N1 N2 IC IS LV].
+  intros W. destruct W as [N1 N2 IC IS LV Z0].
   open_step cf t o En; (constructor; cbn [cl cids sv sids creg sreg at_]).
   all: try assumption.
   all: try (constructor; [rewrite ?IC, ?IS; congruence | assumption]).
+  all: try (unfold upd; eqb_all; cbn; congruence).
   all: try (intros k; unfold upd; simpl In; eqb_all; cbn; rewrite ?IC, ?IS in *; try tauto; try congruence; try (apply LV; assumption); intuition congruence).
 Qed.
 
@@ -138,9 +140,9 @@ Record RegOk (t : st) : Prop := {
 Lemma RegOk_init : RegOk init.
 Proof. constructor; simpl; try constructor; try tauto; try congruence; try discriminate. Qed.
 
-Lemma RegOk_step cf t o : RegOk t -> RegOk (step cf t o).
+Lemma RegOk_step cf t o : Wf t -> RegOk t -> RegOk (step cf t o).
 Proof.
-  intros W. destruct W as [N1 N2 RH RS SR].
+  intros [_ _ _ _ _ Z0] W. destruct W as [N1 N2 RH RS SR].
   open_step cf t o En; (constructor; cbn [cl cids sv sids creg sreg at_]).
   all: try assumption.
   all: try (apply NoDup_reg_add; assumption).
@@ -181,7 +183,7 @@ Proof. constructor; simpl; intros; try congruence; try discriminate. Qed.
 
 Lemma Own_step cf t o : Wf t -> Own t -> Own (step cf t o).
 Proof.
-  intros [_ _ _ _ LV] W. destruct W as [CS SC AC AS CK WT IT].
+  intros [_ _ _ _ LV _] W. destruct W as [CS SC AC AS CK WT IT].
   open_step cf t o En; (constructor; cbn [cl cids sv sids creg sreg at_]).
   all: try assumption.
   all: intros;
